@@ -1537,7 +1537,7 @@ def gen_case(rng, realkind, thorough=False):
                     t[k] = ['m', 0x41, t[k][2]]
     if realkind == 'demofs':
         case['base_n'] = min(rng.choice([0, 1, 2, 3, ntx // 2]), ntx - 1) if ntx > 1 else 0
-    if thorough and rng.random() < 0.2:
+    if thorough and rng.random() < 0.1:
         case['full'] = True          # every oid x every tid boundary after EVERY transaction
     if kind == 'demo':
         if rng.random() < 0.3 and ntx > 2:
@@ -1705,7 +1705,7 @@ def main(argv=None):
         nproc = 1
     else:
         units = [c['cases'] if c.get('kind') == 'pair' else [c] for c in load_corpus()]
-        counts = (dict(fs=2000, map=700, demo=700, hexfs=300, hexmap=150, demofs=300) if ck.thorough else
+        counts = (dict(fs=1200, map=400, demo=400, hexfs=200, hexmap=100, demofs=200) if ck.thorough else
                   dict(fs=56, map=22, demo=22, hexfs=10, hexmap=6, demofs=10))
         for kind in KINDS:
             gen = [gen_case(ck.rng, kind, ck.thorough) for _ in range(counts[kind])]
